@@ -28,6 +28,7 @@ import (
 	ibctm "github.com/cosmos/ibc-go/v11/modules/light-clients/07-tendermint"
 	localhost "github.com/cosmos/ibc-go/v11/modules/light-clients/09-localhost"
 	ibctesting "github.com/cosmos/ibc-go/v11/testing"
+	ibcmock "github.com/cosmos/ibc-go/v11/testing/mock"
 	mockv2 "github.com/cosmos/ibc-go/v11/testing/mock/v2"
 
 	"verif/harness/hx"
@@ -145,6 +146,9 @@ func newWorld(t *testing.T, r *hx.Rng) *W {
 	w.pO.EndpointA.ClientID, w.pO.EndpointB.ClientID = w.pU.EndpointA.ClientID, w.pU.EndpointB.ClientID
 	w.pO.EndpointA.ConnectionID, w.pO.EndpointB.ConnectionID = w.pU.EndpointA.ConnectionID, w.pU.EndpointB.ConnectionID
 	w.pO.SetChannelOrdered()
+	// the two ends of the ORDERED channel are bound to different ports (as with interchain accounts), so a handler that
+	// confuses the source with the destination port looks at another channel end
+	w.pO.EndpointB.ChannelConfig.PortID = ibcmock.MockBlockUpgrade
 	w.pO.CreateChannels()
 	w.pV = ibctesting.NewPath(w.ch[0], w.ch[1])
 	w.pV.SetupV2()
@@ -274,6 +278,20 @@ func (w *W) install() {
 	for ci := range w.ch {
 		ci := ci
 		app := w.ch[ci].GetSimApp()
+		// the ORDERED channel's second end is bound to another port (mockblockupgrade): same scripted application there
+		if m, ok := app.GetIBCKeeper().PortKeeper.Route(ibcmock.MockBlockUpgrade); ok {
+			if bu, ok := m.(ibcmock.BlockUpgradeMiddleware); ok {
+				defer func(target *ibcmock.IBCApp) {
+					target.OnRecvPacket = app.IBCMockModule.IBCApp.OnRecvPacket
+					target.OnAcknowledgementPacket = app.IBCMockModule.IBCApp.OnAcknowledgementPacket
+					target.OnTimeoutPacket = app.IBCMockModule.IBCApp.OnTimeoutPacket
+				}(bu.IBCApp)
+			} else {
+				w.t.Fatalf("unexpected module type for %s: %T", ibcmock.MockBlockUpgrade, m)
+			}
+		} else {
+			w.t.Fatal("no route for mockblockupgrade")
+		}
 		app.IBCMockModule.IBCApp.OnRecvPacket = func(ctx sdk.Context, _ string, p channeltypes.Packet, _ sdk.AccAddress) ibcexported.Acknowledgement {
 			b := w.script[string(p.Data)]
 			w.move(ctx, ci, b.Writes)
